@@ -908,9 +908,17 @@ impl TypeParser {
                     }
                 });
 
-                let discr_value = variant
-                    .discr_value()
-                    .map(|value| discr_value_in_tag_range(value, discr_scalar));
+                // an unsigned tag: the constant's bits are zero-extended, a signed (or unknown)
+                // tag: sign-extended by the size of the form
+                let raw_discr_value = match discr_scalar {
+                    Some((_, false)) => variant
+                        .discr_value_unsigned()
+                        .map(|value| value as i64)
+                        .or_else(|| variant.discr_value()),
+                    _ => variant.discr_value(),
+                };
+                let discr_value =
+                    raw_discr_value.map(|value| discr_value_in_tag_range(value, discr_scalar));
                 Some((discr_value, member?))
             })
             .collect::<HashMap<_, _>>();
